@@ -258,9 +258,8 @@ theorem wellFormedC_of_wellFormed (cs : List (Cmd Tok)) (hwf : WellFormed cs) :
     simp only [Cmd.map]
     split at this
     · cases this
-    · rename_i hv; trace_state; simp only [hv]; simpa using this
+    · simpa using this
     · rename_i n hn0 hv
-      simp only [hv]
       simp only [Bool.and_eq_true, Bool.not_eq_true', List.isEmpty_eq_false_iff, List.all_eq_true,
         beq_iff_eq, ne_eq] at this
       obtain ⟨⟨hne, hlen⟩, htok⟩ := this
